@@ -871,3 +871,204 @@ pub fn c03(thorough: bool, replay: Option<String>) -> i32 {
     rep.add_sub("classic-programs", &format!("{} programs: every parameter tree with <= {} leaves and flat/improper lists up to 40 as main / defun / defun-inline parameters, every literal and operator in 6 positions, binder chains over defun/inline/macro/if, recursion, constant calls, kernels", n, if thorough { 4 } else { 3 }), n, true, capped, st);
     rep.finish()
 }
+
+// ---------------------------------------------------------------------------
+// C13 — symbol tables describe the emitted program
+
+fn tree_hash(t: &T, memo: &mut Vec<(Vec<u8>, T)>) -> Vec<u8> {
+    use sha2::{Digest, Sha256};
+    let h = match t {
+        T::A(v) => {
+            let mut h = Sha256::new();
+            h.update([1]);
+            h.update(v);
+            h.finalize().to_vec()
+        }
+        T::P(a, b) => {
+            let ha = tree_hash(a, memo);
+            let hb = tree_hash(b, memo);
+            let mut h = Sha256::new();
+            h.update([2]);
+            h.update(&ha);
+            h.update(&hb);
+            h.finalize().to_vec()
+        }
+    };
+    if let T::P(_, _) = t {
+        memo.push((h.clone(), t.clone()));
+    }
+    h
+}
+
+fn norm_ws(s: &str) -> String {
+    s.replace('(', " ( ").replace(')', " ) ").split_whitespace().collect::<Vec<_>>().join(" ")
+}
+
+/// (a (q . code) (c (q . left_env) 1)) -> left_env
+fn left_env_of(program: &T) -> Option<T> {
+    if let T::P(op, rest) = program {
+        if **op != T::int(2) {
+            return None;
+        }
+        if let T::P(_q, rest2) = &**rest {
+            if let T::P(envexpr, _) = &**rest2 {
+                // (c (q . env) 1)
+                if let T::P(c, cr) = &**envexpr {
+                    if **c == T::int(4) {
+                        if let T::P(qenv, _) = &**cr {
+                            if let T::P(q, env) = &**qenv {
+                                if **q == T::int(1) {
+                                    return Some((**env).clone());
+                                }
+                            }
+                        }
+                    }
+                }
+            }
+        }
+    }
+    None
+}
+
+fn check_c13_case(st: &mut Stats, case: &Case, sub: &str) {
+    let sigil = case.prog.sigil.expect("sigil");
+    let text = case.prog.text();
+    for (optname, o) in entry_option_sets(sigil) {
+        if sigil == "*strict-cl-21*" && optname != "run" {
+            continue;
+        }
+        st.eval();
+        let c = match modern_compile(&text, dialect_of(sigil), &o) {
+            Ok(c) => c,
+            Err(_) => {
+                st.outcome("rejected");
+                continue;
+            }
+        };
+        let mut memo = vec![];
+        tree_hash(&c.code, &mut memo);
+        let lenv = left_env_of(&c.code);
+        let replay = json!({"kind": "c13", "text": text, "sigil": sigil, "opts": optname});
+        let funs: Vec<(&String, bool, &Pat, &E)> = case.prog.helpers.iter().filter_map(|h| if let Helper::Fun { name, inline, params, body } = h { Some((name, *inline, params, body)) } else { None }).collect();
+        let mut entries_present: Vec<String> = vec![];
+        for (k, v) in c.symbols.iter() {
+            if k.len() != 64 || !k.chars().all(|ch| ch.is_ascii_hexdigit()) {
+                continue;
+            }
+            let args_key = format!("{}_arguments", k);
+            let args_txt = match c.symbols.get(&args_key) {
+                Some(a) => a,
+                None => continue,
+            };
+            let h = hex::decode(k).unwrap();
+            let code = match memo.iter().find(|(hh, _)| *hh == h) {
+                Some((_, t)) => t.clone(),
+                None => {
+                    st.outcome("entry-for-code-not-in-program(allowed)");
+                    continue;
+                }
+            };
+            st.outcome("entry-for-code-in-program");
+            let base = v.split("_$_").next().unwrap_or(v).to_string();
+            let fun = funs.iter().find(|(n, _, _, _)| **n == *v);
+            match fun {
+                None => {
+                    if v.contains("_$_") || v == "__chia__main" || funs.iter().all(|(n, _, _, _)| **n != base) && v.starts_with("letbinding") || v.starts_with("lambda") {
+                        st.outcome("synthetic-function-entry");
+                    } else {
+                        st.violation(&format!("unknown-name/{}", sub), format!("{} [{}]: entry {} -> {:?} names no function of the program", text, optname, k, v), text.len(), replay.clone());
+                    }
+                }
+                Some((name, _inline, params, _body)) => {
+                    entries_present.push((*name).clone());
+                    if norm_ws(args_txt) != norm_ws(&params.text()) {
+                        st.violation(&format!("wrong-arguments/{}", sub), format!("{} [{}]: entry for {} records arguments {:?}, written {:?}", text, optname, name, args_txt, params.text()), text.len(), replay.clone());
+                    }
+                    // run the extracted code on arguments and compare with calling the function in the source
+                    let mut ctr = 0;
+                    let argv = arg_for(params, &mut ctr, 0);
+                    let uses_left = c.symbols.contains_key(&format!("{}_left_env", k));
+                    let env = if uses_left {
+                        match &lenv {
+                            Some(l) => T::p(l.clone(), argv.clone()),
+                            None => {
+                                st.outcome("left-env-not-extractable(no claim)");
+                                continue;
+                            }
+                        }
+                    } else {
+                        argv.clone()
+                    };
+                    // reference: (F &rest argv) evaluated in the source
+                    let call_prog = Prog { sigil: case.prog.sigil, params: Pat::n("ARGV"), helpers: case.prog.helpers.clone(), body: E::Call((*name).clone(), vec![], Some(Box::new(E::v("ARGV")))) };
+                    if let Ok(want) = reference(&call_prog, &argv) {
+                        match consensus(&code, &env) {
+                            Out::Val(g) if g == want => {
+                                st.outcome("extracted-code-computes-the-function");
+                                st.nontrivial(&(&text, optname, name));
+                                st.sample(json!({"program": text, "opts": optname, "function": name, "hash": k, "arguments": args_txt, "on": argv.short(), "value": want.short()}));
+                            }
+                            Out::Limit => {}
+                            other => {
+                                let cls = if pat_has_at(params) { "function/@-capture-in-parameter-list".to_string() } else { format!("wrong-code/{}", sub) };
+                                st.violation(&cls, format!("{} [{}]: code under the entry for {} on {} gives {}, the function means {}", text, optname, name, argv.short(), other.short(), want.short()), text.len(), replay.clone());
+                            }
+                        }
+                    }
+                }
+            }
+        }
+        // presence clause, unoptimised builds only
+        if !o.optimize && !o.post_opt {
+            for (name, inline, _, _) in &funs {
+                if *inline {
+                    continue;
+                }
+                if entries_present.contains(name) {
+                    st.count("non-inlined-function-has-entry", 1);
+                } else {
+                    st.violation(&format!("missing-entry/{}", sub), format!("{} [{}]: non-inlined function {} has no entry whose code occurs in the program", text, optname, name), text.len(), replay.clone());
+                }
+            }
+        }
+    }
+}
+
+pub fn c13(thorough: bool, replay: Option<String>) -> i32 {
+    let mut rep = Report::new("C13", if thorough { "thorough" } else { "quick" }, "exploration");
+    rep.rule = "every generated program with functions (binder chains, call graphs, parameter shapes) x 6 sigils x both entry option sets is compiled with compile_file; all subtree hashes of the emitted program are computed; for every function entry (a 64-hex key with an `_arguments` sibling) whose code occurs in the program: its value must be the name of a function of the program (or a synthetic `_$_` name), the recorded arguments must be the written parameter list, and the code extracted under that hash, run by clvmr in (left-env . args), must return what the reference interpreter returns for calling that function; in unoptimised builds every non-inlined function must have such an entry. \
+        non-trivial = distinct (program, option set, function) entries whose extracted code was run and matched the reference"
+        .to_string();
+    rep.assumptions = vec!["reference interpreter and clvmr as in C01".to_string(), "all generated functions are reachable from the main expression by construction".to_string()];
+    if replay.is_some() {
+        let st = Stats::new();
+        rep.add_sub("replay", "re-run the check; replay files carry the program text, sigil and option set", 0, false, false, st);
+        return rep.finish();
+    }
+    let cap = Some(Duration::from_secs(if thorough { 3000 } else { 50 }));
+    let mut cases: Vec<Case> = vec![];
+    for s in SIGILS {
+        for c in scope_chains(if thorough { 3 } else { 2 }) {
+            if c.len() >= 2 && c.iter().any(|u| u.1 != c[0].1) {
+                continue;
+            }
+            let fn_binders = c.iter().any(|(b, _)| ["defun", "inline", "rest-call", "destructure-call", "let", "assign", "lambda"].contains(&BINDERS[*b]));
+            if fn_binders {
+                cases.push(scope_case(&c, NamePolicy::Fresh, Some(s)));
+            }
+        }
+        cases.extend(calls_cases(Some(s), if thorough { 3 } else { 2 }));
+        let flat: Vec<usize> = if thorough { vec![1, 2, 3, 8, 16, 17, 33] } else { vec![2, 17] };
+        for p in param_patterns(if thorough { 3 } else { 2 }, &flat) {
+            for kind in ["defun-rest", "defun-positional"] {
+                if let Some(c) = params_case(&p, kind, Some(s)) {
+                    cases.push(c);
+                }
+            }
+        }
+    }
+    let n = cases.len() as u64;
+    let (st, capped) = par_range(n, 8, cap, || (), |_, st, i| check_c13_case(st, &cases[i as usize], "generated"));
+    rep.add_sub("generated", &format!("{} programs with 1..4 user functions plus compiler-synthesised helpers (let/assign/lambda), 6 sigils, optimise on/off", n), n, true, capped, st);
+    rep.finish()
+}
